@@ -414,6 +414,32 @@ def build(rng, tier):
                 cases.append(engcheck.Case(pid, inst, ops, {"inp": inp, "inp2": union, "kind": kind + "-rerun"}))
             else:
                 cases.append(engcheck.Case(pid, inst, engcheck.std_history(inst, pid, inp), {"inp": inp, "kind": kind}))
+    # duplicate- and absence-sensitive readers of a binary trrel relation in later strata (count / sum with one column bound, negation with both / one column bound), on
+    # ACYCLIC graphs (finding F7 - pairs (x, x) implied only by a cycle - is listed once, by the streams above)
+    for i in range(2 if quick else 5):
+        b = PB(2)
+        e1 = b.rel("e1", 2); b.rel("e2", 2); add_probes(b)
+        t = b.rel("t", 2, ds="trrel")
+        b.rule([hd(t, V(0), V(1))], [cl(e1, V(0), V(1))])
+        ocnt = b.rel("ocnt", 2); b.rule([(ocnt, [("var", 0), ("var", 21)])], [cl(b.role["pr1"], V(0)), ("agg", [21], "count", [], t, ["_", ("k", ("var", 0))] if i % 2 == 0 else [("k", ("var", 0)), "_"])])
+        osum = b.rel("osum", 2); b.rule([(osum, [("var", 0), ("var", 21)])], [cl(b.role["pr0"], V(0)), ("agg", [21], "sum", [20], t, [("k", ("var", 0)), ("b", 20)])])
+        oneg = b.rel("oneg", 2); b.rule([(oneg, [("var", 0), ("var", 1)])], [cl(b.role["pr0"], V(0)), cl(b.role["pr1"], V(1)), ("agg", [], "not", [], t, [("k", ("var", 0)), ("k", ("var", 1))])])
+        oiso = b.rel("oiso", 1); b.rule([(oiso, [("var", 0)])], [cl(b.role["pr0"], V(0)), ("agg", [], "not", [], t, [("k", ("var", 0)), "_"])])
+        p = b.prog()
+        pid = f"tan{i}"
+        TAGGED[pid] = p
+        progs[pid] = eng.twin(p)
+        mods.append((pid, rs_module_tagged(pid, p)))
+        for j in range(5 if quick else 14):
+            r2 = rng.fork(f"{pid}i{j}")
+            n = r2.range(4, 7)
+            edges = list(dict.fromkeys((a, bb) for a, bb in ((r2.below(n), r2.below(n)) for _ in range(r2.range(2, 7))) if a < bb)) or [(0, 1)]
+            inp = {r: [] for r in range(len(p["rels"])) if not p["rels"][r].get("ds")}
+            inp[e1] = edges
+            inp[b.role["pr0"]] = [(x,) for x in range(n)]
+            inp[b.role["pr1"]] = [(x,) for x in range(n)]
+            inst = f"{pid}_{j}"
+            cases.append(engcheck.Case(pid, inst, engcheck.std_history(inst, pid, inp), {"inp": inp, "kind": "aggneg-acyclic"}))
     for n, (fn, rec) in enumerate(core.corpus("C11")):
         if "program" not in rec: continue
         pid = f"w{n}"
